@@ -87,6 +87,10 @@ def corner_cases(tier):
     for v in (3.0, 3.1, 4.0):
         yield {"kind": "import", "n": 5, "seed": 3, "angles": [[10, 20, 30]] * 12, "version": v, "px": 2.0, "px_via": "column" if v < 4 else "optics",
                "subset": "both", "first_subset": 2, "names": "formatted", "dup_ids": False, "via": "file", "give_version": False, "tomo_fmt": 2, "sub_fmt": 1}
+    for v in (3.0, 3.1):  # lists without a micrograph column: every name format, both 3.x versions (even seed + given version select that form)
+        for sf_ in (1, 2, 3):
+            yield {"kind": "import", "n": 6, "seed": 4, "angles": [[15, 40, -70]] * 12, "version": v, "px": 1.5, "px_via": "column", "subset": "absent", "first_subset": 1,
+                   "names": "formatted", "dup_ids": False, "via": "file" if sf_ != 3 else "frame", "give_version": True, "tomo_fmt": 1, "sub_fmt": sf_}
 
 
 # ----------------------------------------------------------------------------------------------
@@ -426,6 +430,11 @@ def run_import(case, out):
         d["rlnPixelSize"] = [px] * n
     if px_via == "optics":
         d["rlnOpticsGroup"] = [1] * n
+    if v <= 3.1 and not numeric and case["seed"] % 2 == 0 and case["give_version"]:  # (without the column the version cannot be told from the labels)
+        # lists without a micrograph column (the documented fallback: the tomogram number is the first number in the
+        # file name of the subtomogram, which all three name formats used here start with)
+        del d[tname]
+        out.label("import_without_tomogram_name_column")
     order = list(d.keys())
     rng.shuffle(order)
     gimbal = bool(np.any(np.abs(np.sin(np.radians(ang[:, 1]))) < 1e-9))
